@@ -974,6 +974,14 @@ def _analyze_string_cmdsubs(
                 if not reliable and inner_decision.action == "allow":
                     # The text could not be delimited the way bash does it: do not vouch for it
                     inner_decision = Decision("ask", f"unanalyzable text: {inner_cmd}")
+                if "'" in inner_cmd:
+                    # Raw text: whether a ' quotes depends on context this scan does not have
+                    # (${x:+a '$(A='$(cmd)' b)'} runs cmd), so what it seems to quote is scanned too
+                    decisions.extend(
+                        _analyze_string_cmdsubs(
+                            inner_cmd, config, cwd, remote=remote, procsub=procsub
+                        )
+                    )
                 if inner_decision.action != "allow":
                     decisions.append(
                         Decision(
